@@ -126,7 +126,7 @@ def field_constraints(rng, col, rex_pool=None):
             if r() < 0.25:
                 out['rex'] = out['rex'][::-1]
         elif r() < 0.4:
-            out['rex'] = rng.choice(rex_pool or [['^.*$'], ['^[a-zA-Z0-9]*$'], ['^\\d+$', '^[a-z]+$'], ['^$'],
+            out['rex'] = rng.choice(rex_pool or [['^.*$'], ['^[a-zA-Z0-9]*$'], ['^\\d+$', '^[a-z]+$'], ['^$'], [''], ['^\\d+$', ''],
                                                  ['^[^\\d]*$'], ['^.{0,3}$', '^.{5,}$']])
     if fam != 'string' and r() < 0.12:
         # allowed_values on a non-string field: only the all-null case has a documented verdict
